@@ -30,6 +30,10 @@ CLAIMS = {
    text="Static decision of one information-flow clause of the toplex maps: in every loop over maximal simplices that erases the current toplex and re-inserts simplices in the same iteration (remove_simplex, remove_vertex, contraction, unitary_collapse, eager and lazy), each re-inserted simplex is data-dependent on the erased toplex (def-use closure over the loop body) - the faces that survive a removal are a function of the destroyed toplex. Membership answers for all histories, the maximality/no-duplicate invariant and eager/lazy agreement are not decided.",
    note="Trusted: clang 14 parser; dependence is syntactic def-use (an over-approximation of data dependence).",
    tech="def-use / information-flow rule over the clang AST (E10)", ref="DESIGN.md 4/C16"),
+ "C12": dict(
+   text="Static decision of structural clauses of the flag-complex edge collapser: under GUDHI_COLLAPSE_USE_DENSE_ARRAY every writer of the sparse neighbour table writes the dense table with the same symmetric key pairs and values, and both configurations perform the same sparse writes; the dense and sparse arms of the domination tests compare against the same bound with the same strictness; an emitted edge carries the endpoints of the current input edge and exactly the new time written to the neighbour table; a removed edge is not emitted; the edge sort is the strict descending order on the value in the TBB and the sequential build. That the collapsed graph has the same persistence (the domination argument) is not decided.",
+   note="Trusted: clang 14 parser; three preprocessor configurations are parsed on every run; key expressions are compared textually inside one function.",
+   tech="dual-table / sibling-arm agreement, provenance, comparator enumeration over the clang AST", ref="DESIGN.md 4/C12"),
 }
 
 NA = {
